@@ -5,6 +5,7 @@ import GraphiqModel.Proofs.Convert
 import GraphiqModel.Proofs.StateToGraph
 import GraphiqModel.Proofs.StateToGraphRoundTrip
 import GraphiqModel.Proofs.StateToGraphTotal
+import GraphiqModel.Proofs.StateToGraphGauge
 import GraphiqModel.Proofs.GraphStateGroup
 namespace Graphiq.C08
 open Graphiq Graphiq.PRow Graphiq.Tab Graphiq.STab
@@ -198,6 +199,51 @@ theorem graph_round_trip (n : Nat) (hn : 0 < n) (adj : Adj) (hsym : ∀ i j, i <
     (∃ g, S2G.stateToGraph (graphSTab n adj) = .ok (g, []) ∧ ∀ i j, i < n → j < n → g.f i j = adj i j) ∧
     (∃ g, S2G.stabilizerToGraph (graphSTab n adj) = .ok g ∧ ∀ i j, i < n → j < n → g.f i j = adj i j) :=
   ⟨stateToGraph_graph n hn adj hsym hirr, stabilizerToGraph_graph n hn adj hsym hirr⟩
+
+/-- **stabilizer → graph recovers `G` from `|G⟩` presented in ANY generating set** (every n ≥ 1, every simple graph, every real
+    commuting tableau `t` that generates the signed group of `|G⟩`): the modelled `stabilizer_to_graph(validate=True)` returns `G`
+    — `_graph_finder` returns (completeness), the graph it finds is `G` itself, and the closing comparison of the canonical forms
+    ("Input stabilizer is not a graph state") does not fire; the modelled `state_to_graph` returns `(G, [])`: no Hadamard, no
+    `P_dag`, no sign-fixing `Z`.  (`graph_round_trip` is the special case `t = graph_to_stabilizer(G)`.)
+    Exact GF(2) inverses; the float `det · inv` of the Python is compared per input. -/
+theorem stabilizer_to_graph_complete (t : STab) (hn : 0 < t.n) (hg : t.Good) (adj : Adj)
+    (hsym : ∀ i j, i < t.n → j < t.n → adj i j = adj j i) (hirr : ∀ i, i < t.n → adj i i = false)
+    (hstate : ∀ p, t.Spn p ↔ (graphSTab t.n adj).Spn p) :
+    (∃ g, S2G.stabilizerToGraph t = .ok g ∧ ∀ i j, i < t.n → j < t.n → g.f i j = adj i j) ∧
+    (∃ g, S2G.stateToGraph t = .ok (g, []) ∧ ∀ i j, i < t.n → j < t.n → g.f i j = adj i j) :=
+  have hs : SpanEq t (graphSTab t.n adj) := ⟨rfl, fun p => (hstate p).1, fun p => (hstate p).2⟩
+  ⟨stabilizerToGraph_gauge t hn hg adj hsym hirr hs, stateToGraph_gauge t hn hg adj hsym hirr hs⟩
+
+/-- non-vacuity of `stabilizer_to_graph_complete`: the graph state of the edge `0 – 1` in the generating set `⟨Y₀Y₁, Z₀X₁⟩`
+    (`Y₀Y₁ = X₀Z₁ · Z₀X₁`), which is not the graph gauge -/
+def edgeYY : STab :=
+  { n := 2, row := fun i => if i = 0 then ⟨fun j => decide (j < 2), fun j => decide (j < 2), false, false⟩
+                            else ⟨fun j => decide (j = 1), fun j => decide (j = 0), false, false⟩ }
+def edge01 : Adj := fun i j => (i == 0 && j == 1) || (i == 1 && j == 0)
+example : 0 < edgeYY.n ∧ edgeYY.Good ∧ (∀ i j, i < 2 → j < 2 → edge01 i j = edge01 j i) ∧ (∀ i, i < 2 → edge01 i i = false) ∧
+    (∀ p, edgeYY.Spn p ↔ (graphSTab edgeYY.n edge01).Spn p) ∧ ¬ (∀ i, i < 2 → PRow.EqOn 2 (edgeYY.row i) ((graphSTab 2 edge01).row i)) := by
+  have hs : SpanEq edgeYY (graphSTab 2 edge01) := by
+    apply spanEq_of_gens edgeYY (graphSTab 2 edge01) rfl
+    · intro i hi
+      have : i = 0 ∨ i = 1 := by have : i < 2 := hi; omega
+      rcases this with rfl | rfl
+      · exact InSpan.eqv _ _ (InSpan.mul _ _ (spn_gen edgeYY 0 (by decide)) (spn_gen edgeYY 1 (by decide)))
+          (beqOn_eqOn _ _ _ (by decide))
+      · exact InSpan.eqv _ _ (spn_gen edgeYY 1 (by decide)) (beqOn_eqOn _ _ _ (by decide))
+    · intro i hi
+      have : i = 0 ∨ i = 1 := by have : i < 2 := hi; omega
+      rcases this with rfl | rfl
+      · exact InSpan.eqv _ _ (InSpan.mul _ _ (spn_gen (graphSTab 2 edge01) 0 (by decide)) (spn_gen (graphSTab 2 edge01) 1 (by decide)))
+          (beqOn_eqOn _ _ _ (by decide))
+      · exact InSpan.eqv _ _ (spn_gen (graphSTab 2 edge01) 1 (by decide)) (beqOn_eqOn _ _ _ (by decide))
+  refine ⟨by decide, S2G.good_of_check _ (by decide), fun i j hi hj => ?_, by decide, fun p => ⟨hs.sub p, hs.sup p⟩, ?_⟩
+  · have h1 : i = 0 ∨ i = 1 := by omega
+    have h2 : j = 0 ∨ j = 1 := by omega
+    rcases h1 with rfl | rfl <;> rcases h2 with rfl | rfl <;> decide
+  intro h
+  have := ((h 0 (by decide)).1 0 (by decide)).2
+  revert this
+  decide
 
 /-- **`graph_to_stabilizer(G)` is a stabilizer state** (every n, every symmetric `adj`): the generators are real and commute
     (`Good`), they are independent (an ordered product of distinct generators has trivial X part only if it is the empty
